@@ -36,10 +36,10 @@ def meta_of(out):
     raise vlib.MachineryError("TLC printed no META record\n" + out[-3000:])
 
 
-def supervise(ctx, kind, cases_file, tag, cpu_ms, stack_mb, batch, par=0, sample=0, timeout=3000):
+def supervise(ctx, kind, cases_file, tag, cpu_ms, stack_mb, batch, par=0, sample=0, timeout=3000, lazy_gc=False):
     out = ctx.path(tag + ".res")
     args = ["c02-run", "-kind", kind, "-in", cases_file, "-out", out, "-cpu-ms", str(cpu_ms), "-stack-mb", str(stack_mb),
-            "-mem-mb", str(MEM_MB), "-batch", str(batch), "-par", str(par), "-sample", str(sample)]
+            "-mem-mb", str(MEM_MB), "-batch", str(batch), "-par", str(par), "-sample", str(sample), "-lazy-gc=%s" % ("true" if lazy_gc else "false")]
     ctx.vh(args, timeout=timeout)
     recs = vlib.read_ndjson(out)
     if not recs or not recs[-1].get("summary"):
@@ -94,28 +94,41 @@ class Tally:
             self.by_class[k] += v
 
 
-def confirm(ctx, kind, groups, what_of, sig_of, cpu_ms, stack_mb, notes):
-    """groups: {key: [abnormal records]} -> re-run the smallest case of each group alone (twice for
-    hangs, with a large limit); report reproduced ones, raise on irreproducible ones."""
-    for n, (key, abs_) in enumerate(sorted(groups.items(), key=lambda kv: str(kv[0]))):
-        ab = abs_[0]
-        case = ab["case"]
-        tag = "confirm-%s-%d" % (kind, n)
-        r1 = alone(ctx, kind, case, tag, cpu_ms, stack_mb)
-        if ab["what"] == "hang" and r1 is not None and r1["what"] == "hang":
-            r1 = alone(ctx, kind, case, tag + "b", 2 * cpu_ms, stack_mb)
-        if r1 is None:
+def confirm(ctx, kind, groups, what_of, sig_of, cpu_ms, stack_mb, notes, tries=1, par=1):
+    """groups: {key: [abnormal records, smallest first]}.  The first record of a group (the first
+    `tries` until one reproduces) is re-run ALONE in a fresh child -- twice, with a doubled CPU limit,
+    if it did not come back -- and only then reported; a case that does not reproduce is a machinery
+    problem, never a violation."""
+    import concurrent.futures
+    items = sorted(groups.items(), key=lambda kv: str(kv[0]))
+
+    def one(n):
+        key, abs_ = items[n]
+        for t, ab in enumerate(abs_[:tries]):
+            tag = "confirm-%s-%d-%d" % (kind, n, t)
+            r1 = alone(ctx, kind, ab["case"], tag, cpu_ms, stack_mb)
+            if r1 is not None and r1["what"] == "hang":
+                r1 = alone(ctx, kind, ab["case"], tag + "b", 2 * cpu_ms, stack_mb)
+            if r1 is not None:
+                return ab, r1
+        return None
+    with concurrent.futures.ThreadPoolExecutor(par) as ex:
+        results = list(ex.map(one, range(len(items))))
+    for (key, abs_), reproduced in zip(items, results):
+        if reproduced is None:
+            ab = abs_[0]
             if ab["what"] == "hang":
                 notes.append("slow, not hanging (finished alone): %s" % what_of(ab))
                 continue
             raise vlib.MachineryError("abnormal case does not reproduce alone (%s): %s" % (ab["what"], what_of(ab)))
+        ab, r1 = reproduced
         if is_single_huge_alloc(r1):
             notes.append("outside the claim (single allocation of %d bytes): %s" % (r1["oom_block"], what_of(ab)))
             continue
         if r1.get("oom"):
             raise vlib.MachineryError("case dies of memory exhaustion under the %d MB limit: %s: %s" % (MEM_MB, what_of(ab), crash_text(r1)))
-        ctx.violation(sig_of(key, ab), "%s -> %s: %s (%d cases in this class)" % (what_of(ab), r1["what"], crash_text(r1), len(abs_)),
-                      {"kind": kind, "case": case, "cpu_ms": cpu_ms, "stack_mb": stack_mb})
+        ctx.violation(sig_of(key, ab), "%s -> %s: %s (%d cases in this class)" % (what_of(ab), r1["what"], crash_text(r1), max(1, len(abs_) - (tries - 1))),
+                      {"kind": kind, "case": ab["case"], "cpu_ms": cpu_ms, "stack_mb": stack_mb})
 
 
 # --------------------------------------------------------------------------- domain 1: calls
@@ -126,7 +139,7 @@ def call_text(c):
     return "%s%s%s(%s)" % (grp, recv, c["n"], ", ".join(args))
 
 
-def run_calls(ctx, tally, notes):
+def prep_calls(ctx):
     cf = ctx.path("callables.ndjson")
     ctx.vh(["c02-callables", "-out", cf])
     groups = collections.defaultdict(list)
@@ -157,7 +170,13 @@ def run_calls(ctx, tally, notes):
     if n != meta["declared"]:
         raise vlib.MachineryError("TLC declared %d call cases but printed %d" % (meta["declared"], n))
     ctx.log("calls: %d callables, %d targets x %d argument forms = %d cases declared and emitted by TLC" % (ncall, meta["targets"], meta["cases"], n))
-    recs, summ = supervise(ctx, "call", cases_file, "calls", cpu_ms=400, stack_mb=16, batch=2000, sample=max(1, n // 6))
+    return {"file": cases_file, "n": n, "meta": meta, "ncall": ncall, "by_arity": by_arity}
+
+
+def exec_calls(ctx, pc, tally, notes):
+    cases_file, n, meta, ncall, by_arity = pc["file"], pc["n"], pc["meta"], pc["ncall"], pc["by_arity"]
+    pool = meta["pool"]
+    recs, summ = supervise(ctx, "call", cases_file, "calls", cpu_ms=250, stack_mb=16, batch=2000, sample=max(1, n // 6), lazy_gc=True)
     if summ["ran"] != n or summ["idsum"] != n * (n + 1) // 2:
         raise vlib.MachineryError("coverage guard: %d call cases declared, harness ran %d (id checksum %d)" % (n, summ["ran"], summ["idsum"]))
     tally.add(n, summ)
@@ -192,23 +211,293 @@ def run_calls(ctx, tally, notes):
                             for a in groups[("hang", "unbounded")]})
             extra = " [callables that walk range(2^62) to its end without consulting the step budget: %s]" % ", ".join(names)
         return call_text(ab["case"]) + extra
-    confirm(ctx, "call", groups, what_of, sig_of, cpu_ms=20000, stack_mb=64, notes=notes)
+    confirm(ctx, "call", groups, what_of, sig_of, cpu_ms=10000, stack_mb=64, notes=notes, par=3)
     samples = [{"call": call_text(s["case"]), "result": s["result"]["class"], "detail": s["result"].get("detail", "")} for s in recs if s.get("sample")]
     return {"callables": ncall, "targets": meta["targets"], "forms_per_target": meta["cases"], "cases": n, "by_form": dict(by_arity)}, samples
 
 
+# --------------------------------------------------------------------------- domain 2: graphs
+CORE = {"list", "dict", "tuple"}
+
+
+def graph_edges(case):
+    """data edges (those printing / comparison / encoding follow) of a construction history"""
+    kinds = case["kinds"]
+    succ = {i + 1: [] for i in range(len(kinds))}
+    n = 0
+    for h in case["hist"]:
+        if h[0] == "new":
+            n += 1
+            if h[2] and kinds[n - 1] in ("tuple", "struct"):
+                succ[n].append(h[2])
+        elif kinds[h[1] - 1] in ("list", "dict"):
+            succ[h[1]].append(h[2])
+    return succ
+
+
+def cycle_from(case, root):
+    """kinds along a shortest data cycle reachable from root (canonical rotation), or None"""
+    succ, kinds = graph_edges(case), case["kinds"]
+    seen, order, todo = {root}, [root], [root]
+    while todo:
+        a = todo.pop(0)
+        for b in succ[a]:
+            if b not in seen:
+                seen.add(b); order.append(b); todo.append(b)
+    best = None
+    for start in order:
+        # BFS for the shortest path start -> ... -> start
+        prev, q = {}, [start]
+        found = False
+        while q and not found:
+            a = q.pop(0)
+            for b in succ[a]:
+                if b == start:
+                    path = [a]
+                    while path[-1] != start:
+                        path.append(prev[path[-1]])
+                    path.reverse()
+                    found = True
+                    if best is None or len(path) < len(best):
+                        best = path
+                    break
+                if b not in prev and b != start:
+                    prev[b] = a; q.append(b)
+    if best is None:
+        return None
+    ks = [kinds[n - 1] for n in best]
+    rots = [ks[i:] + ks[:i] for i in range(len(ks))]
+    pref = [r for r in rots if r[0] in ("list", "dict")] or rots
+    ks = min(pref, key=lambda r: [("list", "dict", "tuple", "struct").index(k) if k in ("list", "dict", "tuple", "struct") else 9 for k in r])
+    return ks + [ks[0]]
+
+
+def graph_text(case):
+    src, n = [], 0
+    for h in case["hist"]:
+        if h[0] == "new":
+            n += 1
+            c = "n%d" % h[2] if h[2] else "0"
+            src.append({"list": "n%d=[0]", "dict": "n%d={'a':0}", "closure": "def n%d(): return c%d"}.get(h[1], "").replace("%d", str(n)) or
+                       {"tuple": "n%d=(%s,1)", "struct": "n%d=struct(f=%s)", "default": "def n%d(p=%s): return p", "bound": "n%d=%s.method"}[h[1]] % (n, c))
+        else:
+            k = case["kinds"][h[1] - 1]
+            src.append({"list": "n%d.append(n%d)", "dict": "n%d['e']=n%d", "closure": "c%d=n%d"}[k] % (h[1], h[2]))
+    return "; ".join(src)
+
+
+def prep_graphs(ctx):
+    nodes, edges = (3, 1) if ctx.quick else (3, 3)
+    cfg = "CONSTANTS\n  MaxNodes = %d\n  MaxEdges = %d\nINIT Init\nNEXT Next\nINVARIANTS TypeOK CyclesNeedLate Emit\nPOSTCONDITION Post\n" % (nodes, edges)
+    r = ctx.tlc_ok("C02MCGraph", "C02MCGraph.cfg", cfg_text=cfg, workers=8, heap="8g", timeout=3000)
+    meta = meta_of(r["out"])
+    f = ctx.path("graphs.ndjson")
+    n = evals = cyc = 0
+    with open(f, "w") as out:
+        for l in r["out"].split("\n"):
+            if l.startswith('"G{'):
+                g = json.loads(tla_unquote(l)[1:])
+                n += 1
+                g["id"] = n
+                evals += len(g["kinds"]) * len(g["ops"])
+                cyc += g["cyc"]
+                out.write(json.dumps(g, separators=(",", ":")) + "\n")
+    r["out"] = ""
+    if n < 100:
+        raise vlib.MachineryError("graph emission incomplete (%d)" % n)
+    ctx.log("graphs: <=%d nodes, <=%d later edges: %d TLC states, %d constructions (%d cyclic) x nodes x %d ops = %d evaluations declared"
+            % (nodes, edges, meta["distinct"], n, cyc, len(meta["ops"]), evals))
+    return {"file": f, "n": n, "evals": evals, "cyclic": cyc, "nodes": nodes, "edges": edges, "ops": meta["ops"]}
+
+
+def exec_graphs(ctx, g, tally, notes):
+    n = g["n"]
+    recs, summ = supervise(ctx, "graph", g["file"], "graphs", cpu_ms=5000, stack_mb=1, batch=250, sample=max(1, n // 4), lazy_gc=True)
+    if summ["ran"] != n or summ["idsum"] != n * (n + 1) // 2:
+        raise vlib.MachineryError("coverage guard: %d graphs declared, harness ran %d" % (n, summ["ran"]))
+    tally.add(n, summ)
+    ctx.log("graphs: ran %d, %d evaluations, classes %s, %d children" % (summ["ran"], summ["evaluations"], dict(summ["by_class"]), summ["children"]))
+    mism = [r for r in recs if r.get("what") == "mismatch"]
+    if mism:
+        raise vlib.MachineryError("%d graphs: the result class predicted by C02MCGraph!Pred differs from the observed one, e.g. %s | %s"
+                                  % (len(mism), mism[0]["detail"][:300], graph_text(mism[0]["case"])))
+    groups = collections.defaultdict(list)
+    for ab in recs:
+        if ab.get("what") not in ("crash", "hang", "panic"):
+            continue
+        case = ab["case"]
+        if ab["what"] == "panic":      # recovered inside the child: "root R op OP: text"
+            m = re.match(r"root (\d+) op (\w+): (.*)", ab["detail"])
+            root, op = int(m.group(1)), m.group(2)
+        else:
+            root, op = ab.get("at", "0 ?").split(" ")
+            root = int(root)
+        cyc = cycle_from(case, root) if root else None
+        culprit = tuple(sorted(set(cyc) - CORE)) if cyc else ()
+        ab["_root"], ab["_op"], ab["_cyc"] = root, op, cyc
+        groups[(ab["what"], op, culprit or tuple(sorted(set(cyc or case["kinds"]))))].append(ab)
+    KORD = ["list", "dict", "closure", "tuple", "struct", "default", "bound"]
+
+    def size(ab):   # independent of case ids: the same smallest graph in every tier and seed
+        c = ab["case"]
+        return (len(c["kinds"]), len(c["hist"]), len(ab["_cyc"] or []), [KORD.index(k) for k in c["kinds"]], json.dumps(c["hist"]), ab["_root"])
+    smallest = {}
+    for key, abs_ in groups.items():
+        abs_.sort(key=size)
+        if key[2] not in smallest or size(abs_[0]) < size(smallest[key[2]]):
+            smallest[key[2]] = abs_[0]
+    for key, abs_ in groups.items():
+        # try the smallest graph of the whole defect class with this group's operation first
+        cand = [dict(smallest[key[2]], _op=key[1], what=key[0]), abs_[0]]
+        for ab in cand:
+            ab["case"] = dict(ab["case"], only=[ab["_root"], ab["_op"]])
+        groups[key] = cand + abs_[1:]
+
+    def sig_of(key, ab):
+        shape = ">".join(ab["_cyc"]) if ab["_cyc"] else "acyclic:" + "+".join(ab["case"]["kinds"])
+        return "graph:%s/op=%s" % (shape, ab["_op"])
+
+    def what_of(ab):
+        return "%s; %s(n%d)" % (graph_text(ab["case"]), ab["_op"], ab["_root"])
+    confirm(ctx, "graph", groups, what_of, sig_of, cpu_ms=60000, stack_mb=64, notes=notes, tries=2, par=3)
+    samples = [{"graph": graph_text(s["case"]), "predicted": s["case"]["pred"], "observed": s["result"]["extra"]["got"]} for s in recs if s.get("sample")]
+    return {"max_nodes": g["nodes"], "max_late_edges": g["edges"], "graphs": n, "cyclic_graphs": g["cyclic"], "ops": g["ops"],
+            "evaluations_declared": g["evals"], "evaluations_run": summ["evaluations"]}, samples
+
+
+# --------------------------------------------------------------------------- domain 3: sources
+def prep_src(ctx):
+    budget, mutmod = (2, 4) if ctx.quick else (3, 16)
+    cfg = "CONSTANTS\n  Budget = %d\n  MutMod = %d\nINIT Init\nNEXT Next\nINVARIANTS TypeOK Emit\nPOSTCONDITION Post\n" % (budget, mutmod)
+    r = ctx.tlc_ok("C02MCSrc", "C02MCSrc.cfg", cfg_text=cfg, workers=8, heap="12g", timeout=3000,
+                   env={"C02_TIER": ctx.tier, "C02_SEED": ctx.seed})
+    meta = meta_of(r["out"])
+    ft, fs, fd = ctx.path("toks.ndjson"), ctx.path("shapes.ndjson"), ctx.path("deep.ndjson")
+    n = nt = nm = ns = nd = runs = 0
+    seen = set()
+    with open(ft, "w") as ot, open(fs, "w") as os_, open(fd, "w") as od:
+        for l in r["out"].split("\n"):
+            if l.startswith('"T{'):
+                d = json.loads(tla_unquote(l)[1:])
+                key = " ".join(d["toks"])
+                if key in seen:      # the grammar is ambiguous in a few places: one text, one case
+                    continue
+                seen.add(key)
+                n += 1
+                d.update(id=n, kind="toks", steps=10000)
+                nt += 1
+                nm += d["mut"]
+                runs += len(d["opts"])
+                ot.write(json.dumps(d, separators=(",", ":")) + "\n")
+            elif l.startswith('"S{'):
+                d = json.loads(tla_unquote(l)[1:])
+                n += 1
+                d["id"] = n
+                runs += len(d["opts"])
+                if d["kind"] == "text":
+                    nd += 1
+                    od.write(json.dumps(d, separators=(",", ":")) + "\n")
+                else:
+                    ns += 1
+                    os_.write(json.dumps(d, separators=(",", ":")) + "\n")
+    r["out"] = ""
+    if ns + nd != meta["shapes"]:
+        raise vlib.MachineryError("TLC declared %d shape cases but printed %d" % (meta["shapes"], ns + nd))
+    ctx.log("sources: budget %d: %d token sequences (%d valid programs, %d mutants), %d shape cases, %d deep-data cases; %d runs declared"
+            % (budget, nt, nt - nm, nm, ns, nd, runs))
+    return {"toks": ft, "shapes": fs, "deep": fd, "n": n, "nt": nt, "nm": nm, "ns": ns, "nd": nd, "runs": runs, "budget": budget, "mutmod": mutmod}
+
+
+def exec_src(ctx, s, tally, notes):
+    parts = [("toks", s["toks"], s["nt"], dict(cpu_ms=10000, stack_mb=64, batch=1000, sample=max(1, s["n"] // 3), lazy_gc=True)),
+             ("shapes", s["shapes"], s["ns"], dict(cpu_ms=120000, stack_mb=0, batch=6, par=8, sample=0)),
+             ("deep", s["deep"], s["nd"], dict(cpu_ms=900000, stack_mb=0, batch=1, par=6, sample=0))]
+    groups = collections.defaultdict(list)
+    samples, ran, evals = [], 0, 0
+    classes = collections.Counter()
+    for tag, f, cnt, kw in parts:
+        if cnt == 0:
+            continue
+        recs, summ = supervise(ctx, "src", f, "src-" + tag, timeout=6000, **kw)
+        if summ["ran"] != cnt:
+            raise vlib.MachineryError("coverage guard: %d %s cases declared, harness ran %d" % (cnt, tag, summ["ran"]))
+        tally.add(cnt, summ)
+        ran += summ["ran"]
+        evals += summ["evaluations"]
+        classes.update(summ["by_class"])
+        ctx.log("sources/%s: ran %d cases, %d runs, classes %s, %d children" % (tag, summ["ran"], summ["evaluations"], dict(summ["by_class"]), summ["children"]))
+        for ab in recs:
+            if ab.get("sample"):
+                c = ab["case"]
+                samples.append({"source": " ".join(c["toks"]) if c["kind"] == "toks" else "%s d=%d" % (c["name"], c["d"]),
+                                "runs": ab["result"]["extra"]["runs"][:2]})
+            if ab.get("what") not in ("crash", "hang", "panic", "bad"):
+                continue
+            c = ab["case"]
+            if c["kind"] == "toks":
+                key = (ab["what"], "tokens", norm_msg(ab.get("fatal") or ab.get("detail")))
+            else:
+                key = (ab["what"], c["name"], "")
+            groups[key].append(ab)
+    if evals != s["runs"] and not groups:
+        raise vlib.MachineryError("coverage guard: %d runs declared, %d performed" % (s["runs"], evals))
+    for key in groups:
+        groups[key].sort(key=lambda ab: (ab["case"].get("d", 0), len(ab["case"].get("toks", [])), ab["id"]))
+
+    def sig_of(key, ab):
+        c = ab["case"]
+        if c["kind"] == "toks":
+            return "src:tokens/%s:%s" % (key[0], key[2][:60])
+        return "src:%s/d=%d" % (c["name"], c["d"])
+
+    def what_of(ab):
+        c = ab["case"]
+        if c["kind"] == "toks":
+            return "tokens [%s] under options %s" % (" ".join(c["toks"]), c["opts"])
+        if c["kind"] == "text":
+            return "program %r (budget %d steps)" % (c["head"].split("return v\n")[-1], c["steps"])
+        return "shape %s at depth %d (%d bytes)" % (c["name"], c["d"], c["len"])
+    # confirmation with the default 1 GB goroutine stack
+    confirm(ctx, "src", groups, what_of, sig_of, cpu_ms=900000, stack_mb=0, notes=notes, par=4)
+    return {"derivation_budget": s["budget"], "mutate_every": s["mutmod"], "token_sequences": s["nt"], "valid_programs": s["nt"] - s["nm"],
+            "mutants": s["nm"], "shape_cases": s["ns"], "deep_data_cases": s["nd"], "runs_declared": s["runs"], "runs": evals,
+            "by_class": dict(classes)}, samples
+
+
 # --------------------------------------------------------------------------- driver
 def run(ctx):
+    import concurrent.futures
     tally, notes = Tally(), []
     per, samples = {}, []
-    per["calls"], s = run_calls(ctx, tally, notes)
-    samples += s[:3]
+    ctx.build()
+    with concurrent.futures.ThreadPoolExecutor(3) as ex:
+        # TLC runs one at a time (parallel JVMs are slow here); the harness runs overlap with them
+        srcs = prep_src(ctx)
+        f3 = ex.submit(exec_src, ctx, srcs, tally, notes)
+        calls = prep_calls(ctx)
+        f1 = ex.submit(exec_calls, ctx, calls, tally, notes)
+        graphs = prep_graphs(ctx)
+        f2 = ex.submit(exec_graphs, ctx, graphs, tally, notes)
+        for name, f in (("calls", f1), ("graphs", f2), ("sources", f3)):
+            per[name], s = f.result()
+            samples += s[:3]
     ctx.notes += notes
     ctx.cov.update({"evaluations": tally.evals, "distinct_nontrivial": tally.nontrivial, "cases_declared_by_tlc": tally.declared,
                     "cases_run": tally.ran, "traces_validated_against_impl": tally.ran, "by_class": dict(tally.by_class),
                     "child_processes": tally.children, "domains": per})
     ctx.samples = samples
-    return ctx.finish(rule="see domains", exhaustive=False)
+    ctx.assumptions = [
+        "every case runs in a child process under an address-space limit of %d MB; a case that dies of ONE allocation >= 256 MB is outside the claim and only noted" % MEM_MB,
+        "calls, graphs and token sequences run with a reduced goroutine stack (16 MB / 1 MB / 64 MB) so that unbounded recursion fails fast; every crash is re-run alone with a 64 MB stack (sources: Go's default 1 GB) before it is reported",
+        "a case that exceeds its CPU limit is re-run alone twice with 10 s / 20 s of CPU (sources: 15 / 30 min) before it counts as not returning; range(2^62) stands for values whose complete iteration is infeasible",
+        "host values of the pool honour the Value/Iterable contracts (a host value that lies about Len is a host bug, not covered)",
+        "arbitrary byte strings that are not derived from the grammar model or a declared shape are not explored (fuzzing is a different technique)"]
+    return ctx.finish(rule="TLC enumerates (1) target x argument forms: arity 0-2 exhaustive over the pool (quick: arity 2 over the 10-value sub-pool), arity 3 by a "
+                           "pairwise-covering array, keyword forms; (2) all constructions of value graphs with <= 3 nodes and <= 1 (quick) / 3 later edges x every "
+                           "node x 17 operations; (3) all leftmost derivations of the compact grammar within the budget, single-token mutations of a seeded "
+                           "subset, every stress shape at depths 2^k and at the 64 KiB limit, deep run-time data. distinct_nontrivial = cases that reach the code "
+                           "under test (a call that gets past argument binding, a cyclic graph whose cycle is traversed, a source that executes >= 1 step)",
+                      exhaustive=False)
 
 
 def replay(ctx, path):
